@@ -243,6 +243,10 @@ func syms(texts ...string) []sym {
 	for i, t := range texts {
 		s, ok := symTable[t]
 		if !ok {
+			registerDynamicSymbols() // a replay names a symbol that is generated at run time
+			s, ok = symTable[t]
+		}
+		if !ok {
 			panic("unknown symbol " + t)
 		}
 		out[i] = s
